@@ -37,6 +37,9 @@ const (
 	dispPropagate = "propagate"
 	dispAbsorb    = "absorb"
 	dispIgnored   = "ignored"
+	// dispExcept + "<id>;<id>": returned on every path except behind a test for one of these
+	// package-level sentinels (a tolerated condition such as "not found")
+	dispExcept = "propagate-except:"
 )
 
 func isErrorType(t types.Type) bool {
@@ -117,17 +120,31 @@ func errDisposition(f *ssa.Function, c *ssa.Call, lenient bool) (string, bool) {
 		}
 		return "", false // stored, merged in a phi, passed on: not classified
 	}
-	all := true
-	any := false
 	// the reference table is built without excusing anything (strict); the current tree is read
-	// leniently, so a pair is enforced only when the reference tree propagates on every path and a
-	// report needs a path that an error of this callee can really take
-	var excused func(kit.Edge) bool
-	if lenient {
-		excused = kit.EdgeSet(sentinelEdges(f, c, errV)...)
-	}
-	for _, e := range edgesOf(guards, false) {
-		rr := kit.Reach(f, []kit.Pt{kit.EdgeStart(e)}, kit.Opts{BlockEdge: excused})
+	// leniently (sentinels the callee cannot produce are not followed), so a report needs a path that
+	// an error of this callee can really take
+	sents := sentinelEdges(f, c, errV)
+	// what can happen once the call has failed: one traversal from the call with its error known to
+	// be non-nil (every later nil test of it, of a wrapper around it or of a result temporary that
+	// carries it is then decided), not one per test — `if err != nil && cause != X { return err }; if
+	// err != nil { …tolerated… }` has two tests and one meaning. closed: the sentinel tests taken
+	// as "not that sentinel".
+	classify := func(closed []sentinelEdge) (all, any bool) {
+		all = true
+		var edges []kit.Edge
+		conds := map[ssa.Value]bool{}
+		for _, se := range closed {
+			if se.cond != nil {
+				conds[se.cond] = !se.equalWhenTrue
+			} else {
+				edges = append(edges, se.edge)
+			}
+		}
+		from := ssa.Instruction(c)
+		if ex, ok := errV.(*ssa.Extract); ok {
+			from = ex // the fact is about the extracted value: start behind its definition
+		}
+		rr := kit.Reach(f, kit.After(from), kit.Opts{BlockEdge: kit.EdgeSet(edges...), AssumeNonNil: []ssa.Value{errV}, AssumeConds: conds})
 		for _, ret := range kit.Returns(f) {
 			if !rr.Has(ret) {
 				continue
@@ -137,27 +154,92 @@ func errDisposition(f *ssa.Function, c *ssa.Call, lenient bool) (string, bool) {
 				all = false
 			}
 		}
+		return
 	}
+	all, any := classify(sents)
 	if !any {
 		return "", false
 	}
-	if all {
+	if !all {
+		return dispAbsorb, true
+	}
+	// a sentinel is tolerated when opening its tests (only) lets a path reach a return without a
+	// (known) error — wherever the test stands; a test that only picks another message for the
+	// sentinel is not a tolerance. The reference table is built without excusing anything; the
+	// current tree is read leniently: sentinels the callee cannot produce stay closed.
+	live := map[string]bool{}
+	seenID := map[string]bool{}
+	for _, se := range sents {
+		if seenID[se.id] || (lenient && !se.producible) {
+			continue
+		}
+		seenID[se.id] = true
+		var others []sentinelEdge
+		for _, o := range sents {
+			if o.id != se.id {
+				others = append(others, o)
+			}
+		}
+		if a2, any2 := classify(others); any2 && !a2 {
+			live[se.id] = true
+		}
+	}
+	if len(live) == 0 {
 		return dispPropagate, true
 	}
-	return dispAbsorb, true
+	var ids []string
+	for id := range live {
+		ids = append(ids, id)
+	}
+	sort.Strings(ids)
+	return dispExcept + strings.Join(ids, ";"), true
+}
+
+type sentinelEdge struct {
+	edge       kit.Edge // the edge on which the error equals the sentinel (a branch on the comparison)
+	id         string   // "<pkg>.<Name>|<message>"
+	producible bool     // the callee's static call tree reads the variable (or the callee is not known)
+	// a comparison that is not branched on but merged into a boolean phi (`return cause == A ||
+	// cause == B` of an expanded helper)
+	cond          ssa.Value
+	equalWhenTrue bool
+}
+
+// sentinelID names a package-level error variable by its qualified name and, when it is initialised
+// with errors.New("…"), its message — a renamed sentinel with the same message is the same sentinel.
+func sentinelID(g *ssa.Global) string {
+	id := g.Pkg.Pkg.Path() + "." + g.Name()
+	if init := g.Pkg.Func("init"); init != nil {
+		kit.AllInstrs(init, func(in ssa.Instruction) {
+			st, ok := in.(*ssa.Store)
+			if !ok || st.Addr != ssa.Value(g) {
+				return
+			}
+			if call, ok := kit.Strip(st.Val).(*ssa.Call); ok && len(call.Call.Args) == 1 {
+				if k, ok := call.Call.Args[0].(*ssa.Const); ok && k.Value != nil {
+					id += "|" + strings.Trim(k.Value.ExactString(), "\"")
+				}
+			}
+		})
+	}
+	return id
+}
+
+// sameSentinel: equal qualified name or equal message.
+func sameSentinel(a, b string) bool {
+	an, am, _ := strings.Cut(a, "|")
+	bn, bm, _ := strings.Cut(b, "|")
+	return an == bn || (am != "" && am == bm)
 }
 
 // sentinelEdges: the edges on which the error of call c has been found equal to a package-level
-// sentinel (`errors.Cause(err) == storage.ErrNotFound`) that the callee cannot produce by itself —
-// no function in the callee's static call tree reads that variable. Such an edge is not taken by an
-// error of this callee, so what follows it says nothing about its disposition. (Errors handed up
-// from dynamic calls inside the callee are not traced; an interface callee can produce anything and
-// excuses nothing.)
-func sentinelEdges(f *ssa.Function, c *ssa.Call, errV ssa.Value) []kit.Edge {
+// sentinel (`errors.Cause(err) == storage.ErrNotFound`), with whether the callee can produce that
+// sentinel by itself — some function in its static call tree (any package) reads the variable. An
+// edge for a sentinel the callee cannot produce is not taken by an error of this callee, so what
+// follows it says nothing about its disposition. (Errors handed up from dynamic calls inside the
+// callee are not traced; an interface callee can produce anything.)
+func sentinelEdges(f *ssa.Function, c *ssa.Call, errV ssa.Value) []sentinelEdge {
 	callee := kit.StaticCallee(c)
-	if callee == nil {
-		return nil
-	}
 	sentinel := func(v ssa.Value) *ssa.Global {
 		if u, ok := v.(*ssa.UnOp); ok && u.Op == token.MUL {
 			if g, ok := u.X.(*ssa.Global); ok && isErrorType(u.Type()) {
@@ -166,7 +248,8 @@ func sentinelEdges(f *ssa.Function, c *ssa.Call, errV ssa.Value) []kit.Edge {
 		}
 		return nil
 	}
-	var out []kit.Edge
+	var out []sentinelEdge
+	var cur *ssa.Global
 	for _, g := range kit.FindGuards(f, func(cv ssa.Value) (bool, bool) {
 		b, ok := cv.(*ssa.BinOp)
 		if !ok || (b.Op != token.EQL && b.Op != token.NEQ) {
@@ -179,17 +262,61 @@ func sentinelEdges(f *ssa.Function, c *ssa.Call, errV ssa.Value) []kit.Edge {
 		if glob == nil || !kit.DependsOn(other, func(v ssa.Value) bool { return v == errV }) {
 			return false, false
 		}
-		if readsGlobal(callee, glob, map[*ssa.Function]bool{}) {
-			return false, false
-		}
 		return true, b.Op == token.EQL
 	}) {
-		out = append(out, g.PassEdge())
+		// the global of this guard (FindGuards does not hand it back)
+		cur = nil
+		if b, ok := stripNot(g.If.Cond).(*ssa.BinOp); ok {
+			if cur = sentinel(b.Y); cur == nil {
+				cur = sentinel(b.X)
+			}
+		}
+		if cur == nil {
+			continue
+		}
+		prod := callee == nil || callee.Blocks == nil || readsGlobal(callee, cur, map[*ssa.Function]bool{})
+		out = append(out, sentinelEdge{edge: g.PassEdge(), id: sentinelID(cur), producible: prod})
 	}
+	// comparisons merged into a boolean phi
+	kit.AllInstrs(f, func(in ssa.Instruction) {
+		b, ok := in.(*ssa.BinOp)
+		if !ok || (b.Op != token.EQL && b.Op != token.NEQ) || b.Referrers() == nil {
+			return
+		}
+		glob, other := sentinel(b.Y), b.X
+		if glob == nil {
+			glob, other = sentinel(b.X), b.Y
+		}
+		if glob == nil || !kit.DependsOn(other, func(v ssa.Value) bool { return v == errV }) {
+			return
+		}
+		intoPhi := false
+		for _, ref := range *b.Referrers() {
+			if _, isPhi := ref.(*ssa.Phi); isPhi {
+				intoPhi = true
+			}
+		}
+		if !intoPhi {
+			return
+		}
+		prod := callee == nil || callee.Blocks == nil || readsGlobal(callee, glob, map[*ssa.Function]bool{})
+		out = append(out, sentinelEdge{id: sentinelID(glob), producible: prod, cond: b, equalWhenTrue: b.Op == token.EQL})
+	})
 	return out
 }
 
-// readsGlobal: some function in the static call tree of f (any package) refers to glob.
+func stripNot(v ssa.Value) ssa.Value {
+	for {
+		u, ok := v.(*ssa.UnOp)
+		if !ok || u.Op != token.NOT {
+			return v
+		}
+		v = u.X
+	}
+}
+
+// readsGlobal: some function in the static call tree of f (any package) refers to glob, or calls a
+// method of an interface of glob's package.
 func readsGlobal(f *ssa.Function, glob *ssa.Global, seen map[*ssa.Function]bool) bool {
 	if f == nil || seen[f] || f.Blocks == nil {
 		return false
@@ -209,6 +336,13 @@ func readsGlobal(f *ssa.Function, glob *ssa.Global, seen map[*ssa.Function]bool)
 		if ci, ok := in.(ssa.CallInstruction); ok {
 			if g := kit.StaticCallee(ci); g != nil && readsGlobal(g, glob, seen) {
 				found = true
+			}
+			// a method of an interface declared in the sentinel's own package (storage.Storage for
+			// storage.ErrNotFound) hands the sentinel up
+			if com := ci.Common(); com.IsInvoke() {
+				if nt, ok := com.Value.Type().(*types.Named); ok && nt.Obj().Pkg() != nil && nt.Obj().Pkg() == glob.Pkg.Pkg {
+					found = true
+				}
 			}
 		}
 		if mc, ok := in.(*ssa.MakeClosure); ok {
@@ -367,7 +501,20 @@ func checkErrDisposition(p *load.Program, r *kit.Report, rule string) {
 			}
 		})
 		for g, rd := range refF {
-			if len(rd) != 1 || rd[0] != dispPropagate {
+			// enforced: pairs the reference tree returns at every site, possibly except behind
+			// tests for named sentinels
+			enforce := len(rd) > 0
+			var allowed []string
+			for _, d := range rd {
+				switch {
+				case d == dispPropagate:
+				case strings.HasPrefix(d, dispExcept):
+					allowed = append(allowed, strings.Split(strings.TrimPrefix(d, dispExcept), ";")...)
+				default:
+					enforce = false
+				}
+			}
+			if !enforce {
 				continue
 			}
 			if only[f] != nil && !only[f][g] {
@@ -380,17 +527,48 @@ func checkErrDisposition(p *load.Program, r *kit.Report, rule string) {
 			pairs++
 			bad := ""
 			var at ssa.Instruction = sites[0].at
+			callee := strings.TrimPrefix(kit.ShortID(g), "invoke:")
 			for _, s := range sites {
-				if s.disp != dispPropagate {
-					at = s.at
-					what := "can be followed by a successful (nil-error) return or by carrying on"
-					if s.disp == dispIgnored {
-						what = "is no longer looked at"
+				what := ""
+				switch {
+				case s.disp == dispPropagate:
+				case strings.HasPrefix(s.disp, dispExcept):
+					for _, id := range strings.Split(strings.TrimPrefix(s.disp, dispExcept), ";") {
+						ok := false
+						for _, a := range allowed {
+							if sameSentinel(a, id) {
+								ok = true
+							}
+						}
+						if !ok {
+							name, _, _ := strings.Cut(id, "|")
+							what = "is now tolerated when it is " + kit.ShortID(name) + " (the operation carries on or reports success)"
+						}
 					}
-					bad = "an error of " + strings.TrimPrefix(kit.ShortID(g), "invoke:") + " " + what + " in " + kit.ShortID(fid) + "; the reference tree returns it from every call site of this function: a failure is now reported as success (or as `nothing to do`)"
+				case s.disp == dispIgnored:
+					what = "is no longer looked at"
+				default:
+					what = "can be followed by a successful (nil-error) return or by carrying on"
+				}
+				if what != "" {
+					at = s.at
+					ref := "returns it from every call site of this function"
+					if len(allowed) > 0 {
+						var names []string
+						for _, a := range allowed {
+							n, _, _ := strings.Cut(a, "|")
+							names = append(names, kit.ShortID(n))
+						}
+						ref = "returns it from every call site of this function unless it is " + strings.Join(names, " or ")
+					}
+					bad = "an error of " + callee + " " + what + " in " + kit.ShortID(fid) + "; the reference tree " + ref + ": a failure is now reported as success (or as `nothing to do`)"
 				}
 			}
-			r.Check(bad == "", rule, k.key(kit.ShortID(fid)+"/err:"+strings.TrimPrefix(kit.ShortID(g), "invoke:")), posOf(p, at), "still propagated at every call site", bad)
+			good := "still propagated at every call site"
+			if len(allowed) > 0 {
+				good = "still propagated at every call site except for the sentinels the reference tree tolerates"
+			}
+			r.Check(bad == "", rule, k.key(kit.ShortID(fid)+"/err:"+callee), posOf(p, at), good, bad)
 		}
 	}
 	if pairs == 0 {
